@@ -24,18 +24,12 @@ const (
 	kfDropsConn  = "c19.nonstring-key-drops-connection"
 )
 
-// fatalfer is what the oracle needs from *rapid.T / *testing.T.
-type fatalfer interface {
-	Fatalf(format string, args ...interface{})
-	Helper()
-}
-
 type pair struct {
 	key        string
 	main, twin *world
 }
 
-func newPair(f fatalfer, key string) *pair {
+func newPair(f failer, key string) *pair {
 	p := &pair{key: key}
 	p.main = newWorld(f, "server", key, true)
 	p.twin = newWorld(f, "twin", key, false)
@@ -118,7 +112,7 @@ func (o *outcome) item(i int) respItem {
 	return o.rep.items[i]
 }
 
-func run(f fatalfer, w *world, m *message, twin bool) *outcome {
+func run(f failer, w *world, m *message, twin bool) *outcome {
 	f.Helper()
 	o := &outcome{}
 	o.text, o.parts = m.text(twin, func(s string) string { return w.resolve(s, m.Transport) })
@@ -144,7 +138,7 @@ func run(f fatalfer, w *world, m *message, twin bool) *outcome {
 }
 
 // applyModel updates the world's model of live subscriptions from the answers.
-func applyModel(f fatalfer, w *world, m *message, o *outcome) {
+func applyModel(f failer, w *world, m *message, o *outcome) {
 	c := w.conns[m.Transport]
 	if c == nil || o.rep.none || o.rejAll || m.Garbage != "" {
 		return
@@ -177,7 +171,7 @@ func applyModel(f fatalfer, w *world, m *message, o *outcome) {
 
 // step generates one message, sends it to the server and its all-keys-K twin
 // to the twin server, and evaluates the oracle.
-func (p *pair) step(f fatalfer, m *message) {
+func (p *pair) step(f failer, m *message) {
 	f.Helper()
 	tr := m.Transport
 	evid.Eval()
@@ -430,7 +424,7 @@ func (p *pair) step(f fatalfer, m *message) {
 
 // settleCycle is settle for the main world; cycleID names a live subscription
 // of this connection that is first cancelled with the key.
-func (w *world) settleCycle(f fatalfer, tr string, cycleID string, own bool) (closed bool) {
+func (w *world) settleCycle(f failer, tr string, cycleID string, own bool) (closed bool) {
 	f.Helper()
 	if w.sync(f, tr) {
 		return true
@@ -494,7 +488,7 @@ func classify(m *message) {
 }
 
 // finish cancels every live subscription of the server with the key.
-func (p *pair) finish(f fatalfer) {
+func (p *pair) finish(f failer) {
 	f.Helper()
 	for _, tr := range pubsubTransports {
 		c := p.main.conns[tr]
